@@ -1118,12 +1118,23 @@ func lxExecSrc(toks []string) string {
 		if !plain {
 			return "bad-case"
 		}
-		return lxListErr(collect(stream.FromSlice(xs)))
+		// FromSlice and Just copy: the caller overwrites its slice after building the stream
+		buf := append([]int(nil), xs...)
+		s := stream.FromSlice(buf)
+		for i := range buf {
+			buf[i] = 9000 + i
+		}
+		return lxListErr(collect(s))
 	case "just":
 		if !plain {
 			return "bad-case"
 		}
-		return lxListErr(collect(stream.Just(xs...)))
+		buf := append([]int(nil), xs...)
+		s := stream.Just(buf...)
+		for i := range buf {
+			buf[i] = 9000 + i
+		}
+		return lxListErr(collect(s))
 	case "empty":
 		return lxListErr(collect(stream.Empty[int]()))
 	case "error":
